@@ -114,7 +114,7 @@ Theorem C02_relay_url_history : forall v br ls s p e m,
 Proof. exact relay_url_history. Qed.
 
 (* The weaker form (a corollary, kept for its name): some installed list configures the URL. Its first existential
-   ranges over the whole history, so alone it would admit a URL from a list older than the request once any list was
+   ranges over the whole history, so alone it would allow a URL from a list older than the request once any list was
    installed after it; C02_relay_url_not_older_than_request excludes that. *)
 Theorem C02_relay_url : forall v br s p e m,
   reachable v br s -> nth_error (entries s) p = Some e -> e_w e = W_Done (PMatch m) ->
